@@ -400,6 +400,27 @@ def r_dyad_own(ctx: RuleCtx, col: Collector):
                                 f"separately, so a shared array is changed twice")
                     else:
                         col.ok(where_of(f), f.rel, line_of(s.stmt), stmt_key(s.stmt), "stored vector is fresh memory")
+            # one and the same local object appended to two different stored lists
+            stored_in: dict = {}
+            for x in ast.walk(f.node):
+                if isinstance(x, ast.Call) and isinstance(x.func, ast.Attribute) and x.func.attr in ("append", "insert") and \
+                        isinstance(x.func.value, ast.Attribute) and isinstance(x.func.value.value, ast.Name) and \
+                        x.func.value.value.id == m.self_name(f) and x.args:
+                    for y in ast.walk(x.args[-1]):
+                        if isinstance(y, ast.Name) and not (isinstance(getattr(y, "_parent", None), ast.Call) and False):
+                            # only bare uses of the name (not name.copy(), fac*name)
+                            par = getattr(y, "_parent", None)
+                            bare = par is x or isinstance(par, ast.IfExp) and (par.body is y or par.orelse is y)
+                            if bare:
+                                stored_in.setdefault(y.id, {})[x.func.value.attr] = x
+            for nm, lists in stored_in.items():
+                if len(lists) >= 2 and nm not in params:
+                    x = list(lists.values())[-1]
+                    n += 1
+                    col.bad(where_of(f), f.rel, line_of(x), f"'{nm}' stored in {sorted(lists)}",
+                            f"the same array object '{nm}' is appended to self.{sorted(lists)[0]} and self.{sorted(lists)[1]}: "
+                            f"in-place row / column zeroing (__setitem__) writes u and v separately, so the shared array is "
+                            f"changed twice")
             for st in an.attr_stores:
                 if st.attr in ("u", "v") and name != "__init__":
                     h = hits(st.value.orig, ppats)
